@@ -203,9 +203,23 @@ class QueueTheory(Theory):
             return out
         if isinstance(f.recv, SelfV) and f.name == "get":
             return [(st, CoroV("builtin", "queue_get", {}))]
+        if f.recv is None and f.name == "sleep":
+            return [(st, CoroV("builtin", "sleep", {}))]
+        if f.recv is None and f.name == "issubclass" and len(pos) == 2 and isinstance(pos[0], RefV):
+            # the class of the exception that ended the block: any BaseException subclass (e.g. CancelledError is not an Exception)
+            return [(st, BoolV(fresh("issubclass", B)))]
         return super().call_builtin(st, fr, f, pos, kws, rest_kw, node)
 
     def do_await(self, st, fr, v, node):
+        if isinstance(v, CoroV) and v.target == "sleep":
+            # any suspension: the task may be cancelled there; producers/consumers run meanwhile (queue counters move consistently)
+            ok = st.fork()
+            ok.tags.append("sleep:resumed")
+            can = st.fork()
+            can.tags.append("sleep:cancelled")
+            e = ExcV("CancelledError", [])
+            e.origin = "delivered"
+            return [(ok, NoneV()), (can, Exit(Exit.RAISE, e))]
         if isinstance(v, CoroV) and v.target == "queue_get":
             st.trace.append(("get",))
             # suspension: producers and other consumers run
@@ -245,6 +259,7 @@ def u_queue(ip: Interp, th: QueueTheory):
         dones = [e for e in s.trace if e[0] == "task_done"]
         ip.require(s, "__aenter__:awaits-get-exactly-once-and-marks-nothing", z3.BoolVal(len(gets) == 1 and not dones), P)
         if isinstance(v, Exit):
+            # an item that was taken must reach a block (which marks it): leaving __aenter__ by an exception after get() returned loses it
             ip.require(s, "__aenter__:cancelled-while-waiting:took-nothing-marks-nothing", z3.And(z3.BoolVal(v.val.cls == "CancelledError"), th.lemma(s)), P)
         else:
             ip.require(s, "__aenter__:returns-the-item-taken", v.t == s.aux["got"].t if isinstance(v, RefV) and "got" in s.aux else z3.BoolVal(False), P)
